@@ -167,6 +167,116 @@ def isolated(fn, *args, **kw):
     raise RuntimeError("in child: %s\n%s" % (msg[1], msg[2]))
 
 
+class CleanServer(object):
+    """A 'template' process forked while this process is still clean -- before any history has been executed in it.
+    It never executes library code itself: for every request it forks a grandchild, which computes the answer
+    and exits.  What it answers is therefore what the library computes in a process that has seen nothing, and
+    a reference built there cannot be fooled by state that the library keeps at module level (a memo that poisons
+    the object *and* a twin constructed next to it)."""
+
+    def __init__(self, handler):
+        self.req_r, self.req_w = os.pipe()
+        self.res_r, self.res_w = os.pipe()
+        self.pid = os.fork()
+        if self.pid == 0:
+            try:
+                os.close(self.req_w)
+                os.close(self.res_r)
+                sys.stdout = open(os.devnull, "w")
+                while True:
+                    req = _read_msg(self.req_r)
+                    if req is None:
+                        break
+                    gp = os.fork()
+                    if gp == 0:
+                        try:
+                            try:
+                                ans = ("ok", handler(req))
+                            except BaseException as e:  # noqa
+                                ans = ("error", "%s: %s" % (type(e).__name__, e))
+                            _write_msg(self.res_w, ans)
+                        finally:
+                            os._exit(0)
+                    os.waitpid(gp, 0)
+            finally:
+                os._exit(0)
+        os.close(self.req_r)
+        os.close(self.res_w)
+
+    def ask(self, req):
+        _write_msg(self.req_w, req)
+        ready, _, _ = select.select([self.res_r], [], [], RUN_WATCHDOG_S)
+        if not ready:
+            raise HarnessAbort("clean reference process did not answer")
+        ans = _read_msg(self.res_r)
+        if ans is None:
+            raise HarnessAbort("clean reference process died")
+        if ans[0] != "ok":
+            raise HarnessAbort("clean reference process: %s" % ans[1])
+        return ans[1]
+
+    def close(self):
+        for fd in (self.req_w, self.res_r):
+            try:
+                os.close(fd)
+            except OSError:
+                pass
+        try:
+            os.waitpid(self.pid, 0)
+        except OSError:
+            pass
+
+
+def _write_msg(fd, obj):
+    data = pickle.dumps(obj, protocol=pickle.HIGHEST_PROTOCOL)
+    data = len(data).to_bytes(8, "big") + data
+    view = memoryview(data)
+    while len(view):
+        n = os.write(fd, view[:1 << 16])
+        view = view[n:]
+
+
+def _read_exact(fd, n):
+    chunks = []
+    while n:
+        b = os.read(fd, min(n, 1 << 20))
+        if not b:
+            return None
+        chunks.append(b)
+        n -= len(b)
+    return b"".join(chunks)
+
+
+def _read_msg(fd):
+    head = _read_exact(fd, 8)
+    if head is None:
+        return None
+    body = _read_exact(fd, int.from_bytes(head, "big"))
+    return None if body is None else pickle.loads(body)
+
+
+CLEAN = {"server": None}
+
+
+def start_clean(profile):
+    """Fork the clean template now (the calling process must not have executed any history yet)."""
+    stop_clean()
+    handler = getattr(profile, "clean_handler", None)
+    if handler is not None and not os.environ.get("VERIF_NO_FORK"):
+        CLEAN["server"] = CleanServer(handler)
+
+
+def stop_clean():
+    if CLEAN["server"] is not None:
+        CLEAN["server"].close()
+        CLEAN["server"] = None
+
+
+def clean_reference(req):
+    srv = CLEAN["server"]
+    return None if srv is None else srv.ask(req)
+
+
 def _slim(res):
     """RunResult -> plain tuple (picklable, small)."""
     return (res.seed, res.index, res.config, res.ops, res.violation, res.log, res.stats, res.steps)
@@ -195,7 +305,11 @@ def generate_and_run(profile, base_seed, tier, index, keep_ops=False):
 def _replay_child(profile, config, ops):
     signal.signal(signal.SIGALRM, _alarm)
     signal.setitimer(signal.ITIMER_REAL, RUN_WATCHDOG_S)
-    return _slim(_replay(profile, config, ops))
+    start_clean(profile)
+    try:
+        return _slim(_replay(profile, config, ops))
+    finally:
+        stop_clean()
 
 
 def replay(profile, config, ops, event_sink=None):
@@ -240,6 +354,7 @@ def _chunk_body(args):
     signal.signal(signal.SIGALRM, _alarm)
     out = {"agg": profile.new_aggregate(), "violations": [], "errors": [], "samples": [], "runs": 0, "steps": 0,
            "logs": []}
+    start_clean(profile)   # this child has executed nothing yet
     history = []          # (config, ops) of every run of this chunk so far, in execution order
     for idx in indices:
         signal.setitimer(signal.ITIMER_REAL, RUN_WATCHDOG_S)
@@ -280,6 +395,7 @@ def _chunk_body(args):
             out["samples"].append({"index": idx, "seed": res.seed, "config": res.config, "ops": res.ops})
         history.append((res.config, res.ops))
     faulthandler.cancel_dump_traceback_later()
+    stop_clean()
     out.pop("_sigs", None)
     return out
 
